@@ -44,6 +44,10 @@ def run(ctx):
         if lat > 0.25:
             ctx.violation("property", "EndOfMessage reported %.3f s after the end of the burst that established it [%s]"
                           % (lat, tx.describe()), {"input": tx.line(), "tx": tx.describe()})
+    insts = [i for i in asmlib.theorem_instances(rng.fork("instances"), 180 if quick else 6000) if i[0].startswith("C08")]
+    inst_ok, inst_names = asmlib.check_instances(ctx, insts)
+    ctx.coverage["theorem_instances_confirmed_on_impl"] = inst_ok
+    ctx.coverage["theorem_instances"] = inst_names
     def stats(v):
         v = sorted(x for x, _ in v)
         return {"n": len(v), "min": round(v[0], 4), "median": round(v[len(v) // 2], 4), "max": round(v[-1], 4)} if v else {"n": 0}
